@@ -266,7 +266,7 @@ def _uniform_k():
 def _shape(draw, tier, full_prob=3):
     big = tier == "thorough"
     N = draw(st.integers(1, 3))
-    T = draw(st.one_of(st.integers(1, 12), st.integers(1, 40 if big else 12)))
+    T = draw(st.one_of(st.integers(1, 12), st.integers(1, 12), st.integers(1, 64 if big else 40)))
     F = draw(st.one_of(st.integers(1, 6), st.integers(1, 12 if big else 6)))
     mode = draw(st.integers(0, full_prob + 1))
     if mode == 0:
